@@ -13,6 +13,7 @@ Skeleton theorems (the four operations as the inventory describes them): see the
 -/
 import PrimaiteModel.Model.Isolation
 import PrimaiteModel.Gen.SharedState
+import PrimaiteModel.Gen.IsolationReset
 namespace Primaite.Isolation
 
 /-! ### relations -/
@@ -680,5 +681,141 @@ theorem C04_gen_skeleton_matches :
     ∧ (allPhases.all fun ph =>
           ((unprotectedReads [] (progOf ph)).contains gRng == (rngDrawnIn "random" ph && !rngSeededIn "random" ph))) = true := by
   decide +kernel
+
+/-! ### what `reset` keeps: the environment-level attributes -/
+
+def isSetEnv : Cmd → Bool
+  | .setEnv _ _ => true
+  | _ => false
+
+theorem execProg_env_of_noSetEnv (a : Val) :
+    ∀ (p : List Cmd) (i : Inst) (G : Store), (p.all fun c => !isSetEnv c) = true → (execProg a p i G).1.env = i.env := by
+  intro p
+  induction p with
+  | nil => intro i G _; rfl
+  | cons c r ih =>
+    intro i G h
+    simp only [List.all_cons, Bool.and_eq_true] at h
+    cases c with
+    | setEnv x e => simp [isSetEnv] at h
+    | setLoc x e => simpa [execProg, execCmd] using ih _ G h.2
+    | setGlob g e => simpa [execProg, execCmd] using ih i _ h.2
+    | newGame => simpa [execProg, execCmd] using ih _ G h.2
+    | emit e => simpa [execProg, execCmd] using ih i G h.2
+    | log e => simpa [execProg, execCmd] using ih i G h.2
+
+/-- the four post-construction operations of the skeleton -/
+def isResetProg (p : List Cmd) : Bool := p == resetProg || p == resetProgNoSeed
+def isStepProg (p : List Cmd) : Bool := p == stepProg || p == stepProgClean
+
+def bumpEpisode (e : Store) : Store := upd e eEpisode (e eEpisode + 1)
+
+theorem buildGame_noSetEnv : (buildGame.all fun c => !isSetEnv c) = true := by decide
+
+theorem reset_env (a : Val) (i : Inst) (G : Store) (p : List Cmd) (h : isResetProg p = true) :
+    (execProg a p i G).1.env = bumpEpisode i.env := by
+  simp only [isResetProg, Bool.or_eq_true, beq_iff_eq] at h
+  rcases h with h | h <;> subst h
+  · simp only [resetProg, List.cons_append, List.nil_append, execProg, execCmd]
+    rw [execProg_env_of_noSetEnv _ _ _ _ buildGame_noSetEnv]
+    simp [bumpEpisode, eval]
+  · simp only [resetProgNoSeed, List.cons_append, List.nil_append, execProg, execCmd]
+    rw [execProg_env_of_noSetEnv _ _ _ _ buildGame_noSetEnv]
+    simp [bumpEpisode, eval]
+
+theorem step_env (a : Val) (i : Inst) (G : Store) (p : List Cmd) (h : isStepProg p = true) :
+    (execProg a p i G).1.env = i.env := by
+  simp only [isStepProg, Bool.or_eq_true, beq_iff_eq] at h
+  rcases h with h | h <;> subst h <;> exact execProg_env_of_noSetEnv _ _ _ _ (by decide)
+
+def resetsOf (a : Nat) (h : List Event) : Nat := (h.filter fun e => e.who == a && isResetProg e.prog).length
+
+def iter {α : Type} (f : α → α) : Nat → α → α
+  | 0, x => x
+  | n + 1, x => iter f n (f x)
+
+/-- After ANY history of step / reset operations (of any instances), the environment-level attributes of `a` are the initial
+ones with the episode counter advanced once per reset of `a`: nothing else of an earlier episode survives at that level. -/
+theorem C04_env_counts_resets (a : Nat) :
+    ∀ (h : List Event) (p : Proc), (∀ e ∈ h, isResetProg e.prog = true ∨ isStepProg e.prog = true) →
+      ((run h p).1.inst a).env = iter bumpEpisode (resetsOf a h) (p.inst a).env := by
+  intro h
+  induction h with
+  | nil => intro p _; rfl
+  | cons e r ih =>
+    intro p hk
+    have hr := ih (stepProc p e).1 (fun x hx => hk x (List.mem_cons_of_mem _ hx))
+    simp only [run]
+    rw [hr]
+    by_cases hw : e.who = a
+    · rcases hk e (List.mem_cons_self ..) with hp | hp
+      · have : resetsOf a (e :: r) = resetsOf a r + 1 := by simp [resetsOf, hw, hp]
+        rw [this]
+        simp only [iter]
+        congr 1
+        simp only [stepProc, hw, if_true]
+        rw [← hw]
+        exact reset_env e.arg _ _ _ hp
+      · have hnr : isResetProg e.prog = false := by
+          simp only [isStepProg, Bool.or_eq_true, beq_iff_eq] at hp
+          rcases hp with hp | hp <;> rw [hp] <;> decide
+        have : resetsOf a (e :: r) = resetsOf a r := by simp [resetsOf, hnr]
+        rw [this]
+        congr 1
+        simp only [stepProc, hw, if_true]
+        rw [← hw]
+        exact step_env e.arg _ _ _ hp
+    · have : resetsOf a (e :: r) = resetsOf a r := by simp [resetsOf, hw]
+      rw [this]
+      congr 1
+      have hne : ¬ a = e.who := fun x => hw x.symm
+      simp [stepProc, hne]
+
+/-- The property's first sentence for the skeleton, with the leaking `step` excluded (F-10/F-11): two environments built alike, ANY
+two histories of clean steps and resets with the same number of resets, then reset(seed) and the same later operations — in one run
+even interleaved with other instances — give the same trajectory. -/
+theorem C04_skeleton_history_irrelevant_partial (a : Nat) (seed : Val) (h₁ h₂ later : List Event) (p₁ p₂ : Proc)
+    (hk₁ : ∀ e ∈ h₁, isResetProg e.prog = true ∨ e.prog = stepProgClean)
+    (hk₂ : ∀ e ∈ h₂, isResetProg e.prog = true ∨ e.prog = stepProgClean)
+    (hs₁ : ∀ e ∈ h₁, e.prog ≠ resetProgNoSeed) (hs₂ : ∀ e ∈ h₂, e.prog ≠ resetProgNoSeed)
+    (hlater : ∀ e ∈ later, progOK refClass e.prog = true)
+    (hG : AgreeIO refClass p₁.glob p₂.glob) (hinit : (p₁.inst a).env = (p₂.inst a).env)
+    (hcount : resetsOf a h₁ = resetsOf a h₂) :
+    traj a (run (⟨a, resetProg, seed⟩ :: later) (run h₁ p₁).1).2
+      = traj a (run (⟨a, resetProg, seed⟩ :: onlyOf a later) (run h₂ p₂).1).2 := by
+  have ok : ∀ (h : List Event), (∀ e ∈ h, isResetProg e.prog = true ∨ e.prog = stepProgClean) → (∀ e ∈ h, e.prog ≠ resetProgNoSeed) →
+      ∀ e ∈ h, progOK refClass e.prog = true := by
+    intro h hk hs e he
+    rcases hk e he with hp | hp
+    · simp only [isResetProg, Bool.or_eq_true, beq_iff_eq] at hp
+      rcases hp with hp | hp
+      · rw [hp]; exact resetProg_ok
+      · exact absurd hp (hs e he)
+    · rw [hp]; exact stepProgClean_ok
+  have weaken : ∀ (h : List Event), (∀ e ∈ h, isResetProg e.prog = true ∨ e.prog = stepProgClean) →
+      ∀ e ∈ h, isResetProg e.prog = true ∨ isStepProg e.prog = true := by
+    intro h hk e he
+    rcases hk e he with hp | hp
+    · exact Or.inl hp
+    · exact Or.inr (by rw [hp]; decide)
+  apply C04_skeleton_reset_fresh a seed h₁ h₂ later p₁ p₂ (ok h₁ hk₁ hs₁) (ok h₂ hk₂ hs₂) hlater hG
+  rw [C04_env_counts_resets a h₁ p₁ (weaken h₁ hk₁), C04_env_counts_resets a h₂ p₂ (weaken h₂ hk₂), hcount, hinit]
+
+/-! ### tie: the shape of `PrimaiteGymEnv.reset` and of the schedulers -/
+
+open Primaite.Gen.IsolationReset in
+/-- `reset` rebuilds the game from nothing but the scheduler and the episode counter, (re)binds only the episode counter, the game and
+the per-episode reward record; no later method assigns an attribute of the environment or reads that record; the constant scheduler
+returns a deep copy; the list scheduler parses the YAML anew and keeps only a warn-once flag. -/
+theorem C04_gen_reset_shape :
+    resetGameSource = "PrimaiteGame.from_config(cfg=self.episode_scheduler(self.episode_counter))"
+    ∧ resetAssigns = ["total_reward_per_episode[…]", "episode_counter", "game"]
+    ∧ laterWrites = []
+    ∧ (laterReads.all fun r => ["_agent_name", "game", "agent", "_get_obs", "_write_step_metadata_json", "episode_counter", "io"].contains r) = true
+    ∧ resetCallsBefore = ["set_random_seed", "self.io.write_agent_log", "self.game.agents.items", "PacketCapture.clear"]
+    ∧ resetCallsAfter = ["self.game.setup_for_episode", "self.game.get_sim_state", "self.game.update_agents", "self._get_obs"]
+    ∧ constantSchedulerReturns = "copy.deepcopy(self.config)"
+    ∧ listSchedulerReturns = ["parsed_cfg"] ∧ listSchedulerParsedBy = "yaml.safe_load"
+    ∧ listSchedulerAssigns = ["_exceeded_episode_list"] := by decide +kernel
 
 end Primaite.Isolation
